@@ -33,7 +33,8 @@ def tup(s):
 def search(payload):
     what = payload.get('what', 'order')
     tried = 0
-    vs = ['2.9.9', '2.10.0', '2.1.1', '3.0.2', '3.0.10', '3.0.1', '10.0.0', '2.6.0', '2.5.5', '2.2.3', '2.2.10', '2.11.3']
+    vs = ['2.9.9', '2.10.0', '2.1.1', '3.0.2', '3.0.10', '3.0.1', '10.0.0', '2.6.0', '2.5.5', '2.2.3', '2.2.10', '2.11.3',
+          '2.5.100', '2.0.255', '2.9.100', '2.100.0', '1.300.7']
     if what == 'order':
         for a, b in itertools.product(vs, vs):
             tried += 1
